@@ -263,15 +263,16 @@ def r7_strict_parsing_and_fixed_paths(ctx):
         nb += 1
         for bi in sorted(body.reachable()):
             for st in body.blocks[bi]["stmts"]:
-                if st["s"] == "assign" and any(e["p"] == "field" and e.get("name") in ("cert_path", "key_path") for e in st["place"]["proj"]):
+                if st["s"] == "assign" and any(e["p"] == "field" and e.get("name") in ("cert_path", "key_path", "check_expiry", "expiry_warning_days", "watch_enabled") for e in st["place"]["proj"]) \
+                        and st["rv"]["r"] != "aggregate":
                     writes.append((key, st["span"]["line"]))
         for c in body.calls():
             if (c.norm or "").split("::")[-1] in ("canonicalize", "read_link"):
                 writes.append((key, c.line))
     if ctx.floor("R18.7", "bodies of util::cert_reloader", nb, 5):
         ctx.ob("R18.7", "reloader:configured-paths-are-never-rewritten", not writes, "src/util/cert_reloader.rs:%s" % writes[0][1] if writes else "",
-               "cert_path / key_path are only ever read" if not writes else
-               "%s rewrites / resolves the configured certificate paths (line %s): with a symlinked layout (certbot live/ -> archive/, Kubernetes ..data) every later reload re-reads the files the links pointed to at "
+               "the reloader's configuration (paths, check_expiry, ...) is only ever read" if not writes else
+               "%s rewrites a field of the reloader's configuration (line %s) — e.g. resolves the paths, or switches check_expiry off for some value of another option, which silently disables the expired-certificate gate of reload(); with a symlinked layout (certbot live/ -> archive/, Kubernetes ..data) every later reload re-reads the files the links pointed to at "
                "start-up — it reports success and bumps the counters while the old certificate stays in service" % (writes[0][0].split("::{closure")[0], writes[0][1]))
 
 
